@@ -183,6 +183,7 @@ func c17(c *Ctx) {
 		c.Check(good, "R4", "sdk/log|head|returns kvs[:n] with len(kvs) − n", at(ix.M, fn.Pos()), "kept + dropped = offered at this site", "head's dropped count does not match the cut")
 	}
 	addA := c.Fn(ix, "R2", "(*Record).AddAttributes")
+	addAttrsF := ix.Func("(*Record).addAttrs")
 	if addA != nil && fLimit != nil {
 		g := ix.FG(addA)
 		// the cut: attrs = attrs[:last]
@@ -234,6 +235,29 @@ func c17(c *Ctx) {
 			// without cut: the final addAttrs must be reachable without passing a cut
 			s2, _ := g.ReachFromEntry(func(x *GNode) bool { return cuts[x] }, func(e *GEdge) bool { return !edgeOpen(info, e, g.withLocals(env)) })
 			uncutExit := s2[g.Exit]
+			// the cut may also be made in the call itself: addAttrs(attrs[:last]) — then the store calls reachable without an
+			// assigned cut are examined: all of them sliced ⇒ cut, none ⇒ not cut
+			if addAttrsF != nil {
+				sliced, bare := 0, 0
+				for x := range s2 {
+					if x.N == nil {
+						continue
+					}
+					inspectNoLit(x.N, func(n ast.Node) bool {
+						if call, ok := n.(*ast.CallExpr); ok && callToDecl(info, addAttrsF)(call) && len(call.Args) == 1 {
+							if se, isSl := unparen(call.Args[0]).(*ast.SliceExpr); isSl && se.Low == nil && se.High != nil {
+								sliced++
+							} else {
+								bare++
+							}
+						}
+						return true
+					})
+				}
+				if sliced > 0 && bare == 0 {
+					cut, uncutExit = true, false
+				}
+			}
 			got := cut && !uncutExit
 			c.Check(got == row.cut && (row.cut || !cut), "R2", "sdk/log|(*Record).AddAttributes|"+row.name, at(ix.M, addA.Pos()), "cut="+boolStr(got),
 				"count limit "+row.name+" with "+itoa(int(row.n))+" existing and "+itoa(int(row.len))+" new attributes: code cuts="+boolStr(got)+", documented behaviour cuts="+boolStr(row.cut))
@@ -400,6 +424,12 @@ func c17(c *Ctx) {
 						}
 					}
 				case *ast.ExprStmt:
+					// the cut made in the store call itself: addAttrs(attrs[:last]) after the count was taken
+					if call, ok := s.X.(*ast.CallExpr); ok && len(call.Args) == 1 && lastVar != nil && dropOK {
+						if se, isSl := unparen(call.Args[0]).(*ast.SliceExpr); isSl && se.Low == nil && sameVar(info, se.High, lastVar) {
+							cutOK = true
+						}
+					}
 					if call, ok := s.X.(*ast.CallExpr); ok && callToDecl(info, addDropped)(call) && len(call.Args) == 1 && lastVar != nil {
 						if be, ok := unparen(call.Args[0]).(*ast.BinaryExpr); ok && be.Op == token.SUB && sameVar(info, be.Y, lastVar) {
 							if lc, ok := unparen(be.X).(*ast.CallExpr); ok && builtinName(info, lc) == "len" {
